@@ -6,6 +6,7 @@ import (
 	"encoding/hex"
 	"fmt"
 	"go/token"
+	"go/types"
 	"os"
 	"sort"
 	"strings"
@@ -1846,4 +1847,406 @@ func ruleOverlapAskedTwiceEvaluated(c *eng.Ctx) {
 		bad = "Chunk returns other chunks after the overlap calls than before them: the calls write into chunks they share"
 	}
 	c.Check(bad == "", R, "rag.(*Chunker).ChunkWithOverlapEnabled#asked three times", over.Pos(), "three calls and the plain chunking before and after agree", bad)
+}
+
+// ---------------------------------------------------------------------------------------------------------------
+// R17.19 workbooks written by the rule, read by xlsx.Open in the evaluator.
+
+type zipMember struct {
+	name string
+	data string
+}
+
+// zipHooks stands a list of members in for the archive a reader opens with zip.OpenReader: the *zip.ReadCloser value
+// is built from the library's own types, (*zip.File).Open gives a reader over the member's bytes. encoding/xml is
+// answered by the library on a type of the repository's shape (eng/xmlmodel.go).
+func zipHooks(ev *eng.Evaluator, members []zipMember, opened, closed *int) {
+	contents := map[*eng.EStruct][]byte{}
+	fieldType := func(t types.Type, name string) (int, types.Type) {
+		st, ok := t.Underlying().(*types.Struct)
+		if !ok {
+			return -1, nil
+		}
+		for i := 0; i < st.NumFields(); i++ {
+			if st.Field(i).Name() == name {
+				return i, st.Field(i).Type()
+			}
+		}
+		return -1, nil
+	}
+	ptr := func(v any) *eng.EPtr {
+		loc := &eng.ELoc{V: v}
+		return &eng.EPtr{Get: func() any { return loc.V }, Set: func(x any) { loc.V = x }, Loc: loc}
+	}
+	ev.External = func(g *ssa.Function, args []any) (any, *eng.EvalError, bool) {
+		switch eng.FuncName(g) {
+		case "archive/zip.OpenReader":
+			pt, ok := g.Signature.Results().At(0).Type().Underlying().(*types.Pointer)
+			if !ok {
+				return nil, nil, false
+			}
+			rcT := pt.Elem()
+			rc, _ := eng.ZeroOf(rcT).(*eng.EStruct)
+			ri, rdrT := fieldType(rcT, "Reader")
+			if rc == nil || ri < 0 {
+				return nil, nil, false
+			}
+			rdr, _ := rc.F[ri].(*eng.EStruct)
+			fi, filesT := fieldType(rdrT, "File")
+			if rdr == nil || fi < 0 {
+				return nil, nil, false
+			}
+			fpt, ok := filesT.Underlying().(*types.Slice).Elem().Underlying().(*types.Pointer)
+			if !ok {
+				return nil, nil, false
+			}
+			fileT := fpt.Elem()
+			hi, hdrT := fieldType(fileT, "FileHeader")
+			var files []any
+			for _, m := range members {
+				fv, _ := eng.ZeroOf(fileT).(*eng.EStruct)
+				if fv == nil || hi < 0 {
+					return nil, nil, false
+				}
+				hdr, _ := fv.F[hi].(*eng.EStruct)
+				if hdr == nil || !eng.SetField(hdr, hdrT, "Name", m.name) {
+					return nil, nil, false
+				}
+				eng.SetField(hdr, hdrT, "UncompressedSize64", int64(len(m.data)))
+				contents[fv] = []byte(m.data)
+				files = append(files, ptr(fv))
+			}
+			rdr.F[fi] = eng.SliceOf(files...)
+			*opened++
+			return eng.ETuple{ptr(rc), nil}, nil, true
+		case "archive/zip.(*File).Open":
+			if p, ok := args[0].(*eng.EPtr); ok && p != nil {
+				if fv, ok := p.Get().(*eng.EStruct); ok {
+					if data, ok := contents[fv]; ok {
+						return eng.ETuple{&eng.EBytesReader{Data: data}, nil}, nil, true
+					}
+				}
+			}
+		case "archive/zip.(*ReadCloser).Close":
+			*closed++
+			return nil, nil, true
+		}
+		return nil, nil, false
+	}
+}
+
+// R17.19 [C17, C18]
+func ruleWorkbooksEvaluated(c *eng.Ctx) {
+	const R = "R17.19-WORKBOOKS-EVALUATED"
+	c.Rule(R, "xlsx.Open followed by Sheet(i).Rows and TextWithOptions, evaluated on a workbook the rule writes as archive members (three worksheets declared in an order that is neither archive order nor file-name order, one of them by a package-absolute target outside xl/, with an undeclared part at the same path below xl/; shared, inline, formula-cached, boolean, error and numeric cells; rows and cells out of order and far apart; a merged region with values stored under its covered cells; a second merged region beyond the data) behind a stand-in for archive/zip, with encoding/xml answered by the library on the repository's own struct shapes: the sheets come in workbook order under their declared names, every cell's value is at the row and column its reference names, a merged region shows its top-left value and blanks elsewhere, and the tab-separated text has line r, field c", 1, 0)
+	open := c.P.FuncExact("xlsx.Open")
+	sheetF := c.P.FuncExact("xlsx.(*Reader).Sheet")
+	textF := c.P.FuncExact("xlsx.(*Reader).Text")
+	countF := c.P.FuncExact("xlsx.(*Reader).SheetCount")
+	sheetT := c.P.NamedType("xlsx", "Sheet")
+	cellT := c.P.NamedType("xlsx", "Cell")
+	if open == nil || sheetF == nil || textF == nil || countF == nil || sheetT == nil || cellT == nil {
+		c.Ok(R, "xlsx.Open", token.NoPos, "xlsx entry points not found: not evaluated")
+		return
+	}
+	ws := func(rows string, merges string) string {
+		m := ""
+		if merges != "" {
+			m = "<mergeCells>" + merges + "</mergeCells>"
+		}
+		return `<?xml version="1.0" encoding="UTF-8"?><worksheet xmlns="http://schemas.openxmlformats.org/spreadsheetml/2006/main"><sheetData>` + rows + `</sheetData>` + m + `</worksheet>`
+	}
+	members := []zipMember{
+		{"[Content_Types].xml", `<?xml version="1.0"?><Types xmlns="http://schemas.openxmlformats.org/package/2006/content-types"></Types>`},
+		{"xl/worksheets/sheet1.xml", ws(`<row r="1"><c r="A1" t="s"><v>0</v></c></row>`, "")},
+		{"xl/worksheets/sheet3.xml", ws(`<row r="2"><c r="C2" t="inlineStr"><is><t>inl</t></is></c><c r="A2" t="b"><v>1</v></c></row><row r="1"><c r="B1"><v>42</v></c><c r="D1" t="e"><v>#DIV/0!</v></c><c r="A1" t="str"><f>A2</f><v>cached</v></c></row>`, "")},
+		{"xl/workbook.xml", `<?xml version="1.0"?><workbook xmlns="http://schemas.openxmlformats.org/spreadsheetml/2006/main" xmlns:r="http://schemas.openxmlformats.org/officeDocument/2006/relationships"><sheets><sheet name="Third" sheetId="7" r:id="rId3"/><sheet name="First" sheetId="2" r:id="rId1"/><sheet name="Merged" sheetId="5" r:id="rId9"/></sheets></workbook>`},
+		{"xl/_rels/workbook.xml.rels", `<?xml version="1.0"?><Relationships xmlns="http://schemas.openxmlformats.org/package/2006/relationships"><Relationship Id="rId1" Type="http://schemas.openxmlformats.org/officeDocument/2006/relationships/worksheet" Target="worksheets/sheet1.xml"/><Relationship Id="rId9" Type="http://schemas.openxmlformats.org/officeDocument/2006/relationships/worksheet" Target="/data/q3.xml"/><Relationship Id="rId3" Type="http://schemas.openxmlformats.org/officeDocument/2006/relationships/worksheet" Target="worksheets/sheet3.xml"/><Relationship Id="rId4" Type="http://schemas.openxmlformats.org/officeDocument/2006/relationships/sharedStrings" Target="sharedStrings.xml"/></Relationships>`},
+		{"xl/sharedStrings.xml", `<?xml version="1.0"?><sst xmlns="http://schemas.openxmlformats.org/spreadsheetml/2006/main" count="3" uniqueCount="3"><si><t>shared0</t></si><si><r><t>rich</t></r><r><t>text</t></r></si><si><t>m-root</t></si></sst>`},
+		{"xl/data/q3.xml", ws(`<row r="1"><c r="A1"><v>31337</v></c></row>`, "")},
+		{"data/q3.xml", ws(`<row r="1"><c r="A1" t="s"><v>2</v></c><c r="B1"><v>777</v></c><c r="C1" t="s"><v>1</v></c></row><row r="2"><c r="A2"><v>888</v></c><c r="B2"><v>999</v></c><c r="C2"><v>5</v></c></row><row r="4"><c r="AB4"><v>28</v></c></row>`, `<mergeCell ref="F10:G11"/><mergeCell ref="A1:B2"/>`)},
+	}
+	type cell struct {
+		r, c int
+		v    string
+	}
+	wantSheets := []struct {
+		name  string
+		cells []cell
+	}{
+		{"Third", []cell{{0, 0, "cached"}, {0, 1, "42"}, {0, 3, "#DIV/0!"}, {1, 0, "TRUE"}, {1, 2, "inl"}}},
+		{"First", []cell{{0, 0, "shared0"}}},
+		{"Merged", []cell{{0, 0, "m-root"}, {0, 2, "richtext"}, {1, 2, "5"}, {3, 27, "28"}}},
+	}
+	ev := eng.NewEvaluator()
+	ev.Steps = 80000000
+	ev.MaxDepth = 60
+	opened, closed := 0, 0
+	zipHooks(ev, members, &opened, &closed)
+	key := "xlsx.Open#a workbook of three sheets"
+	rd, err := ev.Call(open, []any{"book.xlsx"}, 0)
+	fail := func(e *eng.EvalError) bool {
+		if e == nil {
+			return false
+		}
+		if e.Panic {
+			c.Viol(R, key, open.Pos(), "the reader is brought down: "+e.Msg)
+		} else {
+			c.Ok(R, key, open.Pos(), "not evaluated: "+e.Msg)
+		}
+		return true
+	}
+	if fail(err) {
+		return
+	}
+	tup, ok := rd.(eng.ETuple)
+	if !ok || len(tup) != 2 {
+		c.Ok(R, key, open.Pos(), "not evaluated: Open does not return (reader, error)")
+		return
+	}
+	if tup[1] != nil {
+		msg := ""
+		if ee, ok := tup[1].(*eng.EErr); ok {
+			msg = ee.Msg
+		}
+		c.Viol(R, key, open.Pos(), "a well-formed workbook is refused: "+msg)
+		return
+	}
+	bad := ""
+	cnt, err := ev.Call(countF, []any{tup[0]}, 0)
+	if fail(err) {
+		return
+	}
+	if n, _ := cnt.(int64); int(n) != len(wantSheets) {
+		bad = fmt.Sprintf("%d sheets are reported, the workbook declares %d", n, len(wantSheets))
+	}
+	for si := 0; si < len(wantSheets) && bad == ""; si++ {
+		got, err := ev.Call(sheetF, []any{tup[0], int64(si)}, 0)
+		if fail(err) {
+			return
+		}
+		st, ok := got.(eng.ETuple)
+		if !ok || len(st) != 2 || st[1] != nil {
+			bad = fmt.Sprintf("sheet %d is not handed out", si)
+			break
+		}
+		name, _ := evalField(st[0], types.NewPointer(sheetT), "Name")
+		if name != wantSheets[si].name {
+			bad = fmt.Sprintf("sheet %d is %q, the workbook declares %q at that position", si+1, name, wantSheets[si].name)
+			break
+		}
+		rowsV, _ := evalField(st[0], types.NewPointer(sheetT), "Rows")
+		rows, _ := rowsV.(*eng.ESlice)
+		at := func(r, cc int) (string, bool) {
+			if rows == nil || r >= len(rows.L) {
+				return "", false
+			}
+			row, _ := rows.L[r].V.(*eng.ESlice)
+			if row == nil || cc >= len(row.L) {
+				return "", false
+			}
+			v, _ := evalField(row.L[cc].V, cellT, "Value")
+			s, _ := v.(string)
+			return s, true
+		}
+		want := map[[2]int]string{}
+		for _, wc := range wantSheets[si].cells {
+			want[[2]int{wc.r, wc.c}] = wc.v
+			if v, ok := at(wc.r, wc.c); !ok || v != wc.v {
+				bad = fmt.Sprintf("sheet %q: the cell at row %d, column %d holds %q (in the grid: %v); its reference places %q there", wantSheets[si].name, wc.r+1, wc.c+1, v, ok, wc.v)
+				break
+			}
+		}
+		// nothing anywhere else, except the raw values under a merged region, which the renderers blank
+		for r := 0; rows != nil && r < len(rows.L) && bad == ""; r++ {
+			row, _ := rows.L[r].V.(*eng.ESlice)
+			for cc := 0; row != nil && cc < len(row.L); cc++ {
+				v, _ := at(r, cc)
+				if _, isWant := want[[2]int{r, cc}]; !isWant && v != "" {
+					merged, _ := evalField(row.L[cc].V, cellT, "IsMerged")
+					if m, _ := merged.(bool); !m {
+						bad = fmt.Sprintf("sheet %q: row %d, column %d holds %q, no cell of the file is addressed there", wantSheets[si].name, r+1, cc+1, v)
+					}
+				}
+			}
+		}
+	}
+	if bad == "" {
+		txt, err := ev.Call(textF, []any{tup[0]}, 0)
+		if fail(err) {
+			return
+		}
+		if tt, ok := txt.(eng.ETuple); ok && len(tt) == 2 && tt[1] == nil {
+			s, _ := tt[0].(string)
+			lines := strings.Split(s, "\n")
+			find := func(first string) []string {
+				for _, l := range lines {
+					f := strings.Split(l, "\t")
+					if f[0] == first {
+						return f
+					}
+				}
+				return nil
+			}
+			if f := find("cached"); len(f) < 4 || f[1] != "42" || f[2] != "" || f[3] != "#DIV/0!" {
+				bad = fmt.Sprintf("the text line of row 1 of sheet Third is %q; field c is column c: cached, 42, (empty), #DIV/0!", strings.Join(f, "\\t"))
+			} else if f := find("m-root"); len(f) < 3 || f[1] != "" || f[2] != "richtext" {
+				bad = fmt.Sprintf("the text line of row 1 of sheet Merged is %q; the merged region shows m-root at its top-left and a blank under it, then richtext", strings.Join(f, "\\t"))
+			} else if strings.Index(s, "cached") > strings.Index(s, "shared0") || strings.Index(s, "shared0") > strings.Index(s, "m-root") {
+				bad = "the text does not present the sheets in workbook order (Third, First, Merged)"
+			} else if strings.Contains(s, "888") || strings.Contains(s, "999") || strings.Contains(s, "777") {
+				bad = "values stored under the covered cells of the merged region A1:B2 appear in the text"
+			} else if strings.Contains(s, "31337") {
+				bad = "the text holds the content of xl/data/q3.xml, a part no relationship leads to (the sheet is declared at /data/q3.xml)"
+			}
+		}
+	}
+	c.Check(bad == "", R, key, open.Pos(), "three sheets in workbook order, every cell where its reference places it", "a workbook is not read as it is written: "+bad)
+}
+
+// ---------------------------------------------------------------------------------------------------------------
+// R18.21 a presentation and a book written by the rule: parts in declared order.
+
+// R18.21 [C18]
+func ruleContainersInDeclaredOrderEvaluated(c *eng.Ctx) {
+	const R = "R18.21-CONTAINERS-IN-DECLARED-ORDER-EVALUATED"
+	c.Rule(R, "pptx.Open(...).Text/SlideCount and epubdoc.Open(...).Text/Chapters, evaluated on a presentation and a book the rule writes as archive members behind a stand-in for archive/zip (slides declared in an order that is neither archive order nor file-name order, one by a package-absolute target, an unreferenced slide part as a decoy; spine items in an order of their own with a percent-encoded href, a href that climbs out of the package directory, and a manifest item that is not in the spine): the parts come in the declared order, each declared readable part once, nothing undeclared, and the count is the number of declared parts", 1, 0)
+	slide := func(title, body string) string {
+		return `<?xml version="1.0"?><p:sld xmlns:p="http://schemas.openxmlformats.org/presentationml/2006/main" xmlns:a="http://schemas.openxmlformats.org/drawingml/2006/main"><p:cSld><p:spTree><p:sp><p:nvSpPr><p:cNvPr id="2" name="Title"/><p:cNvSpPr/><p:nvPr><p:ph type="title"/></p:nvPr></p:nvSpPr><p:spPr/><p:txBody><a:bodyPr/><a:p><a:r><a:t>` + title + `</a:t></a:r></a:p></p:txBody></p:sp><p:sp><p:nvSpPr><p:cNvPr id="3" name="Body"/><p:cNvSpPr/><p:nvPr><p:ph idx="1"/></p:nvPr></p:nvSpPr><p:spPr/><p:txBody><a:bodyPr/><a:p><a:r><a:t>` + body + `</a:t></a:r></a:p></p:txBody></p:sp></p:spTree></p:cSld></p:sld>`
+	}
+	type check struct {
+		name    string
+		open    string
+		count   string
+		members []zipMember
+		order   []string // words in the order the text must show them
+		absent  []string
+		n       int64
+	}
+	const relNS = `xmlns="http://schemas.openxmlformats.org/package/2006/relationships"`
+	const slideRel = `Type="http://schemas.openxmlformats.org/officeDocument/2006/relationships/slide"`
+	checks := []check{
+		{
+			name: "a presentation of three slides", open: "pptx.Open", count: "pptx.(*Reader).SlideCount", n: 3,
+			members: []zipMember{
+				{"[Content_Types].xml", `<?xml version="1.0"?><Types xmlns="http://schemas.openxmlformats.org/package/2006/content-types"></Types>`},
+				{"ppt/slides/slide1.xml", slide("DecoyTitle", "decoybody")},
+				{"ppt/slides/slide2.xml", slide("TitleTwo", "bodytwo")},
+				{"ppt/slides/slide10.xml", slide("TitleTen", "bodyten")},
+				{"ppt/slides/intro.xml", slide("TitleIntro", "bodyintro")},
+				{"ppt/presentation.xml", `<?xml version="1.0"?><p:presentation xmlns:p="http://schemas.openxmlformats.org/presentationml/2006/main" xmlns:r="http://schemas.openxmlformats.org/officeDocument/2006/relationships"><p:sldIdLst><p:sldId id="256" r:id="rId3"/><p:sldId id="257" r:id="rId1"/><p:sldId id="258" r:id="rId2"/></p:sldIdLst><p:sldSz cx="9144000" cy="6858000"/><p:extLst><p:ext uri="{521415D9-36F7-43E2-AB2F-B90AF26B5E84}"><p14:sectionLst xmlns:p14="http://schemas.microsoft.com/office/powerpoint/2010/main"><p14:section name="One" id="{A}"><p14:sldIdLst><p14:sldId id="257"/><p14:sldId id="256"/></p14:sldIdLst></p14:section><p14:section name="Two" id="{B}"><p14:sldIdLst><p14:sldId id="258"/></p14:sldIdLst></p14:section></p14:sectionLst></p:ext></p:extLst></p:presentation>`},
+				{"ppt/_rels/presentation.xml.rels", `<?xml version="1.0"?><Relationships ` + relNS + `><Relationship Id="rId1" ` + slideRel + ` Target="slides/slide2.xml"/><Relationship Id="rId2" ` + slideRel + ` Target="/ppt/slides/intro.xml"/><Relationship Id="rId3" ` + slideRel + ` Target="slides/slide10.xml"/></Relationships>`},
+			},
+			order:  []string{"TitleTen", "bodyten", "TitleTwo", "bodytwo", "TitleIntro", "bodyintro"},
+			absent: []string{"DecoyTitle", "decoybody"},
+		},
+		{
+			name: "a book of three chapters", open: "epubdoc.Open", count: "epubdoc.(*Reader).ChapterCount", n: 3,
+			members: []zipMember{
+				{"mimetype", "application/epub+zip"},
+				{"META-INF/container.xml", `<?xml version="1.0"?><container version="1.0" xmlns="urn:oasis:names:tc:opendocument:xmlns:container"><rootfiles><rootfile full-path="OEBPS/content.opf" media-type="application/oebps-package+xml"/></rootfiles></container>`},
+				{"OEBPS/text/a.xhtml", `<html xmlns="http://www.w3.org/1999/xhtml"><head><title>A</title></head><body><p>alphachapter</p></body></html>`},
+				{"OEBPS/text/ch one.xhtml", `<html xmlns="http://www.w3.org/1999/xhtml"><head><title>B</title></head><body><p>bravochapter</p></body></html>`},
+				{"extra/c.xhtml", `<html xmlns="http://www.w3.org/1999/xhtml"><head><title>C</title></head><body><p>charliechapter</p></body></html>`},
+				{"OEBPS/text/unlisted.xhtml", `<html xmlns="http://www.w3.org/1999/xhtml"><head><title>U</title></head><body><p>unlistedchapter</p></body></html>`},
+				{"OEBPS/content.opf", `<?xml version="1.0"?><package xmlns="http://www.idpf.org/2007/opf" version="3.0" unique-identifier="id"><metadata xmlns:dc="http://purl.org/dc/elements/1.1/"><dc:title>Book</dc:title><dc:identifier id="id">x</dc:identifier><dc:language>en</dc:language></metadata><manifest><item id="a" href="text/a.xhtml" media-type="application/xhtml+xml"/><item id="b" href="text/ch%20one.xhtml" media-type="application/xhtml+xml"/><item id="c" href="../extra/c.xhtml" media-type="application/xhtml+xml"/><item id="u" href="text/unlisted.xhtml" media-type="application/xhtml+xml"/></manifest><spine><itemref idref="b"/><itemref idref="c"/><itemref idref="a"/></spine></package>`},
+			},
+			order:  []string{"bravochapter", "charliechapter", "alphachapter"},
+			absent: []string{"unlistedchapter"},
+		},
+	}
+	xh := func(w string) string {
+		return `<html xmlns="http://www.w3.org/1999/xhtml"><head><title>T</title></head><body><p>` + w + `</p></body></html>`
+	}
+	checks = append(checks, check{
+		name: "a book whose package file lies at the archive root", open: "epubdoc.Open", count: "epubdoc.(*Reader).ChapterCount", n: 4,
+		members: []zipMember{
+			{"mimetype", "application/epub+zip"},
+			{"META-INF/container.xml", `<?xml version="1.0"?><container version="1.0" xmlns="urn:oasis:names:tc:opendocument:xmlns:container"><rootfiles><rootfile full-path="content.opf" media-type="application/oebps-package+xml"/></rootfiles></container>`},
+			{"text/one.xhtml", xh("rootone")}, {"b.xhtml", xh("roottwo")}, {"cover.xhtml", xh("rootcover")}, {"text/three.xhtml", xh("rootthree")},
+			{"content.opf", `<?xml version="1.0"?><package xmlns="http://www.idpf.org/2007/opf" version="3.0" unique-identifier="id"><metadata xmlns:dc="http://purl.org/dc/elements/1.1/"><dc:title>Root</dc:title><dc:identifier id="id">y</dc:identifier><dc:language>en</dc:language></metadata><manifest><item id="one" href="./text/one.xhtml" media-type="application/xhtml+xml"/><item id="two" href="text/../b.xhtml" media-type="application/xhtml+xml"/><item id="cover" href="cover.xhtml" media-type="application/xhtml+xml"/><item id="three" href="text/three.xhtml" media-type="application/xhtml+xml"/></manifest><spine><itemref idref="cover" linear="no"/><itemref idref="one"/><itemref idref="two"/><itemref idref="three"/></spine></package>`},
+		},
+		order: []string{"rootcover", "rootone", "roottwo", "rootthree"},
+	})
+	for _, ck := range checks {
+		key := ck.open + "#" + ck.name
+		open := c.P.FuncExact(ck.open)
+		countF := c.P.FuncExact(ck.count)
+		textF := c.P.FuncExact(strings.Replace(ck.open, ".Open", ".(*Reader).Text", 1))
+		if open == nil || countF == nil || textF == nil {
+			c.Ok(R, key, token.NoPos, "entry points not found: not evaluated")
+			continue
+		}
+		ev := eng.NewEvaluator()
+		ev.Steps = 80000000
+		ev.MaxDepth = 200
+		opened, closed := 0, 0
+		zipHooks(ev, ck.members, &opened, &closed)
+		rd, err := ev.Call(open, []any{"file.bin"}, 0)
+		bad := ""
+		var text string
+		if err == nil {
+			tup, ok := rd.(eng.ETuple)
+			switch {
+			case !ok || len(tup) != 2:
+				err = &eng.EvalError{Msg: "Open does not return (reader, error)"}
+			case tup[1] != nil:
+				msg := ""
+				if ee, ok := tup[1].(*eng.EErr); ok {
+					msg = ee.Msg
+				}
+				bad = "a well-formed file is refused: " + msg
+			default:
+				var cnt, txt any
+				cnt, err = ev.Call(countF, []any{tup[0]}, 0)
+				if err == nil {
+					if ct, ok := cnt.(eng.ETuple); ok && len(ct) > 0 {
+						cnt = ct[0]
+					}
+					if n, _ := cnt.(int64); n != ck.n {
+						bad = fmt.Sprintf("%d parts are counted, %d are declared and readable", n, ck.n)
+					}
+					txt, err = ev.Call(textF, []any{tup[0]}, 0)
+				}
+				if err == nil {
+					if tt, ok := txt.(eng.ETuple); ok && len(tt) == 2 && tt[1] == nil {
+						text, _ = tt[0].(string)
+					} else {
+						bad = "Text fails on a well-formed file"
+					}
+				}
+			}
+		}
+		if err != nil && !err.Panic {
+			c.Ok(R, key, open.Pos(), "not evaluated: "+err.Msg)
+			continue
+		}
+		if err != nil {
+			bad = "the reader is brought down: " + err.Msg
+		}
+		if bad == "" {
+			last := -1
+			for _, w := range ck.order {
+				i := strings.Index(text, w)
+				switch {
+				case i < 0:
+					bad = fmt.Sprintf("%q, a word of a declared part, is not in the text", w)
+				case strings.Count(text, w) != 1:
+					bad = fmt.Sprintf("%q is in the text %d times", w, strings.Count(text, w))
+				case i < last:
+					bad = fmt.Sprintf("%q comes before the part declared ahead of it: the parts are not in declared order", w)
+				}
+				if bad != "" {
+					break
+				}
+				last = i
+			}
+			for _, w := range ck.absent {
+				if bad == "" && strings.Contains(text, w) {
+					bad = fmt.Sprintf("%q is in the text although no declaration leads to its part", w)
+				}
+			}
+		}
+		c.Check(bad == "", R, key, open.Pos(), fmt.Sprintf("%d parts in declared order, nothing undeclared", ck.n), "the parts of a container are not presented as declared: "+bad)
+	}
 }
